@@ -111,6 +111,8 @@ def one(ctx, i, tmpdir):
         eval_values["zq_vals"] = vals
         in_tree = ast.parse(in_src)
     n_pairs = 1 + (i % 3 if not evalmode else 0)
+    if i % 6 == 4 and not evalmode:
+        n_pairs = 2 + (i // 6) % 2  # copies of one module: chained addresses need several pairs
     # candidate locations: annotated things in the input, args/annotated assignments in the output
     in_args = [l for l in pick_locs(rng, min_["locations"], in_tree, ARG_KINDS + ANN_KINDS)
                if l["kind"] not in ("kwarg", "method_kwarg")]
